@@ -199,10 +199,13 @@ def intersect_line3d_sphere(line_ray, sphere):
     sq = math.sqrt(det)
     u1 = (-b + sq) / (2 * a)
     u2 = (-b - sq) / (2 * a)
-    if not L._u_in(u1):
+    in1, in2 = L._u_in(u1), L._u_in(u2)
+    if not in1:
         u1 = max(min(u1, 1.0), 0.0)
-    if not L._u_in(u2):
+    if not in2:
         u2 = max(min(u2, 1.0), 0.0)
+    if u1 == u2 and not (in1 or in2):
+        return None  # both crossings lie beyond the same end: no intersection
     p1 = Point3D(L.p.x + u1 * L.v.x, L.p.y + u1 * L.v.y, L.p.z + u1 * L.v.z)
     if u1 == u2:
         return p1
